@@ -192,7 +192,10 @@ pub fn gen_timed(t: &mut Tape, want_window: bool) -> Scenario {
             4 => {
                 if open.len() >= 2 {
                     let j = *open.iter().find(|&&x| x != i).unwrap();
-                    g.bin(i, j, BinOp::Merge);
+                    // zip of two timestamped streams: a pair carries the newer of its two
+                    // timestamps (one member may have waited in the stash across watermarks)
+                    let op = if g.t.draw(3) == 2 { BinOp::Zip } else { BinOp::Merge };
+                    g.bin(i, j, op);
                 } else {
                     g.un(i, UnOp::Shuffle);
                 }
